@@ -3,11 +3,11 @@
         final(self).wf(), final(self).same_file(old(self)), final(w).io_faults == old(w).io_faults,
         old(self).pos() <= final(self).pos(),
         match r {
-            Some(Ok(e)) => parse_at(old(self).all(), old(self).pos()) == Some((entry_view(e), final(self).pos())) // [C03:entry-iff-decodes] [C15:entry-iff-decodes] [C11:entry-iff-decodes] [C04:entry-iff-decodes]
+            Some(Ok(e)) => parse_at(old(self).all(), old(self).pos()) == Some((entry_view(e), final(self).pos())) // [C02:entry-iff-decodes] [C03:entry-iff-decodes] [C15:entry-iff-decodes] [C11:entry-iff-decodes] [C04:entry-iff-decodes]
                             && final(self).last_valid_pos == final(self).pos() && *final(w) == *old(w), // [C03:last-valid-pos-is-entry-end]
             Some(Err(_)) => final(self).last_valid_pos == old(self).last_valid_pos && (old(self).faulty() || old(w).io_faults)
                             && (final(w).trunc == old(w).trunc || final(w).trunc == old(w).trunc.push(trunc_ev(old(self), old(self).last_valid_pos))),
             None => final(self).last_valid_pos == old(self).last_valid_pos
                             && final(w).trunc == (if final(self).pos() > old(self).last_valid_pos { old(w).trunc.push(trunc_ev(old(self), old(self).last_valid_pos)) } else { old(w).trunc }), // [C03:truncate-iff-moved]
         },
-        !old(self).faulty() ==> (parse_at(old(self).all(), old(self).pos()) is Some <==> r matches Some(Ok(_))), // [C03:entry-iff-decodes] [C11:entry-iff-decodes] [C04:entry-iff-decodes]
+        !old(self).faulty() ==> (parse_at(old(self).all(), old(self).pos()) is Some <==> r matches Some(Ok(_))), // [C02:entry-iff-decodes] [C03:entry-iff-decodes] [C11:entry-iff-decodes] [C04:entry-iff-decodes]
